@@ -177,10 +177,11 @@ def check_C03(tier):
                          "specification's reader and decoder; non-trivial = accepted input")
     n = 5 if quick else 6
     own = ("C03", "C02", "C14")
-    for alpha, tab, ml in [("chain", "default", n), ("ring", "default", n), ("bracket", "default", n - 1),
-                           ("ringbranch", "default", n + 2), ("caps", "octet_rule", n - 1), ("aro", "default", n - 1)]:
+    q = 1 if quick else 0
+    for alpha, tab, ml in [("chain", "default", n - q), ("ring", "default", n), ("bracket", "default", n - 1 - q),
+                           ("ringbranch", "default", n + 2 - q), ("caps", "octet_rule", n - 1 - q), ("aro", "default", n - 1)]:
         enc_gen_replay(rep, "%s_%s" % (alpha, tab), ENC[alpha], TABLES[tab], ml, quick=quick, own=own)
-    corpus_trace(rep, "datasets", quick, own, [relaxed_table(), "default"], per_file=(25 if quick else 400),
+    corpus_trace(rep, "datasets", quick, own, [relaxed_table()] + ([] if quick else ["default"]), per_file=(14 if quick else 400),
                  variants=(2 if quick else 4),
                  extra=[gs.macrocycle(k) for k in (3, 14, 15, 16, 17, 255, 256, 257, 300)] +
                        [gs.long_branch(k) for k in (0, 15, 16, 17, 255, 256, 300)])
@@ -207,12 +208,13 @@ def check_C04(tier):
                          "stereo-rich molecules re-spelled and judged by TLC; non-trivial = accepted input with a stereo mark")
     n = 5 if quick else 6
     own = ("C04",)
-    enc_gen_replay(rep, "stereo_default", ENC["stereo"], "default", n, quick=quick, own=own)
+    q = 1 if quick else 0
+    enc_gen_replay(rep, "stereo_default", ENC["stereo"], "default", n - q, quick=quick, own=own)
     enc_gen_replay(rep, "stereo_rings", ["[C@]", "[C@@H]", "C", "1", "2", "3", "(", ")", "F", "N", "/C", "=C"], "default",
-                   n + 1, quick=quick, own=own)
+                   n + 1 - q, quick=quick, own=own)
     enc_gen_replay(rep, "ring_marks", ["C", "/C", "\\C", "=C", "/1", "\\1", "1", "=1", "F", "(", ")", "/2", "2"], "default",
                    n, quick=quick, own=own)
-    corpus_trace(rep, "stereo", quick, own, [relaxed_table()], per_file=(60 if quick else 800),
+    corpus_trace(rep, "stereo", quick, own, [relaxed_table()], per_file=(40 if quick else 800),
                  variants=(3 if quick else 6), flt=has_stereo)
     rep.exhaustive = True
     return rep.finish()
@@ -240,8 +242,9 @@ def check_C05(tier):
                          "non-trivial = contains an aromatic bond")
     n = 5 if quick else 6
     own = ("C05",)
-    enc_gen_replay(rep, "aro_default", ENC["aro"], "default", n, quick=quick, own=own)
-    enc_gen_replay(rep, "aro2_default", ENC["aro2"], "default", n, quick=quick, own=own)
+    q = 1 if quick else 0
+    enc_gen_replay(rep, "aro_default", ENC["aro"], "default", n - q, quick=quick, own=own)
+    enc_gen_replay(rep, "aro2_default", ENC["aro2"], "default", n - q, quick=quick, own=own)
     enc_gen_replay(rep, "aro_rings", ["c", "n", "1", "2", "(", ")", "o", "[nH]", "c"], "default", n + 2, quick=quick, own=own)
     # order independence at scale: many atom orders of fused, bridged and cage systems
     rng = random.Random(seed() * 11 + 5)
